@@ -684,7 +684,7 @@ func (ServicesData) analyze(httpSvc *expr.HTTPServiceExpr) *ServiceData {
 								Name:        arg,
 								VarName:     name,
 								Description: att.Description,
-								FieldName:   codegen.Goify(arg, true),
+								FieldName:   codegen.GoifyAtt(patt, arg, true),
 								FieldType:   patt.Type,
 								TypeName:    rd.Scope.GoTypeName(att),
 								TypeRef:     rd.Scope.GoTypeRef(att),
@@ -1101,7 +1101,7 @@ func buildPayloadData(e *expr.HTTPEndpointExpr, sd *ServiceData) *PayloadData {
 			Cookies:      cookiesData,
 			ServerBody:   serverBodyData,
 			ClientBody:   clientBodyData,
-			PayloadAttr:  codegen.Goify(origin, true),
+			PayloadAttr:  originFieldName(payload, origin),
 			PayloadType:  e.MethodExpr.Payload.Type,
 			MustHaveBody: mustHaveBody,
 			MustValidate: mustValidate,
@@ -1376,7 +1376,7 @@ func buildPayloadData(e *expr.HTTPEndpointExpr, sd *ServiceData) *PayloadData {
 			ReturnTypeName:           svc.Scope.GoFullTypeName(payload, pkg),
 			ReturnTypeRef:            svc.Scope.GoFullTypeRef(payload, pkg),
 			ReturnIsStruct:           isObject,
-			ReturnTypeAttribute:      codegen.Goify(origin, true),
+			ReturnTypeAttribute:      originFieldName(payload, origin),
 			ReturnTypePkg:            pkg,
 			ServerCode:               serverCode,
 			ClientCode:               clientCode,
@@ -1695,7 +1695,7 @@ func buildResponses(e *expr.HTTPEndpointExpr, result *expr.AttributeExpr, viewed
 						ReturnTypeName:           tname,
 						ReturnTypeRef:            tref,
 						ReturnIsStruct:           expr.IsObject(result.Type),
-						ReturnTypeAttribute:      codegen.Goify(origin, true),
+						ReturnTypeAttribute:      originFieldName(result, origin),
 						ReturnTypePkg:            pkg,
 						ReturnIsPrimitivePointer: pointer,
 						ClientCode:               code,
@@ -1709,6 +1709,9 @@ func buildResponses(e *expr.HTTPEndpointExpr, result *expr.AttributeExpr, viewed
 				)
 				if resp.Tag[0] != "" {
 					tagName = codegen.Goify(resp.Tag[0], true)
+					if tagAtt := result.Find(resp.Tag[0]); tagAtt != nil {
+						tagName = codegen.GoifyAtt(tagAtt, resp.Tag[0], true)
+					}
 					tagVal = resp.Tag[1]
 					tagPtr = viewed || result.IsPrimitivePointer(resp.Tag[0], true)
 				}
@@ -1725,7 +1728,7 @@ func buildResponses(e *expr.HTTPEndpointExpr, result *expr.AttributeExpr, viewed
 					TagValue:     tagVal,
 					TagPointer:   tagPtr,
 					MustValidate: mustValidate,
-					ResultAttr:   codegen.Goify(origin, true),
+					ResultAttr:   originFieldName(result, origin),
 					ViewedResult: md.ViewedResult,
 				})
 			}
@@ -1853,7 +1856,7 @@ func buildErrorsData(e *expr.HTTPEndpointExpr, sd *ServiceData) []*ErrorGroupDat
 				ReturnTypeName:      svc.Scope.GoFullTypeName(v.ErrorExpr.AttributeExpr, pkg),
 				ReturnTypeRef:       svc.Scope.GoFullTypeRef(v.ErrorExpr.AttributeExpr, pkg),
 				ReturnIsStruct:      expr.IsObject(v.ErrorExpr.Type),
-				ReturnTypeAttribute: codegen.Goify(origin, true),
+				ReturnTypeAttribute: originFieldName(v.ErrorExpr.AttributeExpr, origin),
 				ReturnTypePkg:       pkg,
 				ClientCode:          code,
 			}
@@ -1952,6 +1955,21 @@ func buildErrorsData(e *expr.HTTPEndpointExpr, sd *ServiceData) []*ErrorGroupDat
 	return vals
 }
 
+// originFieldName returns the name of the Go struct field that corresponds to
+// the attribute of parent named origin (the attribute given to Body). It
+// returns the empty string if origin is empty.
+func originFieldName(parent *expr.AttributeExpr, origin string) string {
+	if origin == "" {
+		return ""
+	}
+	if parent != nil {
+		if att := parent.Find(origin); att != nil {
+			return codegen.GoifyAtt(att, origin, true)
+		}
+	}
+	return codegen.Goify(origin, true)
+}
+
 // buildRequestBodyType builds the TypeData for a request body. The data makes
 // it possible to generate a function on the client side that creates the body
 // from the service method payload.
@@ -2040,7 +2058,7 @@ func buildRequestBodyType(body, att *expr.AttributeExpr, e *expr.HTTPEndpointExp
 				srcObj := expr.AsObject(att.Type)
 				origin = o[0]
 				srcAtt = srcObj.Attribute(origin)
-				src += "." + codegen.Goify(origin, true)
+				src += "." + originFieldName(att, origin)
 			}
 			code, helpers, err = marshal(srcAtt, body, src, "body", svcctx, httpctx)
 			if err != nil {
@@ -2063,7 +2081,7 @@ func buildRequestBodyType(body, att *expr.AttributeExpr, e *expr.HTTPEndpointExp
 			Name:                name,
 			Description:         desc,
 			ReturnTypeRef:       sd.Scope.GoTypeRef(body),
-			ReturnTypeAttribute: codegen.Goify(origin, true),
+			ReturnTypeAttribute: originFieldName(att, origin),
 			ClientCode:          code,
 			ClientArgs:          []*InitArgData{&arg},
 		}
@@ -2220,7 +2238,7 @@ func buildResponseBodyType(body, att *expr.AttributeExpr, loc *codegen.Location,
 				srcObj := expr.AsObject(att.Type)
 				origin = o[0]
 				srcAtt = srcObj.Attribute(origin)
-				src += "." + codegen.Goify(origin, true)
+				src += "." + originFieldName(att, origin)
 			}
 			code, helpers, err = marshal(srcAtt, body, src, "body", svcctx, httpctx)
 			if err != nil {
@@ -2251,7 +2269,7 @@ func buildResponseBodyType(body, att *expr.AttributeExpr, loc *codegen.Location,
 			Name:                name,
 			Description:         desc,
 			ReturnTypeRef:       rtref,
-			ReturnTypeAttribute: codegen.Goify(origin, true),
+			ReturnTypeAttribute: originFieldName(att, origin),
 			ServerCode:          code,
 			ServerArgs:          []*InitArgData{&arg},
 		}
